@@ -364,6 +364,7 @@ Proof.
     apply pblock_ok in H2. destruct H2 as [E1 E2]. subst lb.
     cbn [ystmt]. rewrite Hc, E2. lists.
   - (* IF *) revert H1. apply (yield_stmt_all fok _). exact Hc.
+  - (* SWITCH *) revert H1. apply (yield_stmt_all fok _). exact Hc.
 Qed.
 
 Lemma psnippet_yield : forall n st acc ss st',
